@@ -21,7 +21,7 @@ from typing import Any, Dict, List, Tuple
 
 from ..loader import AnalysisError, Project, src, dotted
 from ..report import Result
-from ..engines.abseval import Unsupported, AbsRaise
+from ..engines.abseval import Unsupported, AbsRaise, IndexOut
 from ..engines.instances import Runtime, Instance
 from ..engines.stdlib import install
 
@@ -163,6 +163,9 @@ def run(ctx) -> Result:
                 except AbsRaise as r:
                     bad = bad or (slabel, f"raises {r.exc_name}")
                     continue
+                except IndexOut as exc:
+                    bad = bad or (slabel, f"raises IndexError ({exc})")
+                    continue
                 except Unsupported as exc:
                     raise AnalysisError(f"{pm.qualname}: unsupported construct line {getattr(exc.node, 'lineno', '?')}: {exc}")
                 want = kind_expect(kind, expected_family(pen))
@@ -232,7 +235,10 @@ def _check_guards(res: Result, proj: Project, aw: AlgWorld, schemes):
         res.saw(comp)
         bad = None
         for slabel, pen, s in schemes:
-            p = rt.call_method(inst, PRED, s)
+            try:
+                p = rt.call_method(inst, PRED, s)
+            except (AbsRaise, IndexOut):
+                continue            # reported by A2
             for dname, ds in (("incomplete", incomplete), ("complete", complete)):
                 outcome = "accepted"
                 try:
